@@ -45,6 +45,7 @@ def run_case(g, H):
     added_path = None
     try:
         deps, recs = [], []
+        late = []
         for di, d in enumerate(g["deps"]):
             srcdir = os.path.join(tmp, f"src{di}")
             source = None
@@ -71,9 +72,15 @@ def run_case(g, H):
                         fh.write(f"content of {f} #{rnd.random()}".encode())
             links = [f for f in d["links"]]
             scripts = [f for f in d["scripts"]]
+            seq = g.get("seq", "")
+            held_back = None
+            if seq == "append_after" and len(scripts) >= 2:
+                held_back = scripts[-1]          # this script joins the dependency only after a first save
             dep = H.HTMLDependency(d["name"], d["version"], source=source,
-                                   script=[{"src": f} for f in scripts], stylesheet=[{"href": f} for f in links],
-                                   all_files=d["allfiles"])
+                                   script=[{"src": f} for f in (scripts[:-1] if held_back else scripts)],
+                                   stylesheet=[{"href": f} for f in links], all_files=d["allfiles"])
+            if held_back:
+                late.append((dep, held_back))
             deps.append(dep)
             recs.append({"name": b(d["name"]), "vstr": b(str(dep.version)), "src": d["src"], "href": b(d.get("href", "")),
                          "files": [b(f) for f in links + scripts], "nlinks": len(links), "allfiles": bool(d["allfiles"]),
@@ -117,6 +124,25 @@ def run_case(g, H):
                         if os.path.isfile(p0):
                             open(p0, "wb").write(b"rebuilt content")
                         recs[di]["srcfiles"] = project(srcdir_i)
+        if g.get("seq") == "append_after" and late:
+            # a first save with the dependencies as they were, then each one gets one more script through its public list
+            try:
+                H.tags.div("early", *deps).save_html(os.path.join(dest, "early.html"), libdir=libdir, include_version=g["inclver"])
+                os.remove(os.path.join(dest, "early.html"))
+            except Exception:  # noqa
+                pass
+            for dep_, f_ in late:
+                dep_.script.append({"src": f_})
+        if g.get("seq") == "edit_as_dict":
+            # what as_dict() hands back is the caller's: editing it changes nothing about the dependency
+            for dep_ in deps:
+                dd = dep_.as_dict(lib_prefix=libdir, include_version=g["inclver"])
+                for it_ in dd["script"]:
+                    it_["src"] = "https://cdn.example/replaced.js"
+                for it_ in dd["stylesheet"]:
+                    it_["href"] = it_["href"] + "?v=3"
+                dd["script"].append({"src": "extra.js"})
+                dd["name"] = "renamed"
         before = project(dest)
         how = g.get("how", "tag")
         obj = {"tag": lambda: H.tags.div("x", *deps), "list": lambda: H.TagList("x", *deps),
@@ -215,7 +241,7 @@ class C12(Prop):
                              "href": rnd.choice(["https://cdn.example/lib", "https://cdn.example/lib/"]),
                              "links": [f for f in listed if f.endswith(".css")], "scripts": [f for f in listed if not f.endswith(".css")],
                              "present": present, "allfiles": rnd.random() < 0.3, "stale": rnd.choice(["none", "file", "other"])})
-            gens.append({"kind": "case", "seed": n, "twice": rnd.random() < 0.3,
+            gens.append({"kind": "case", "seed": n, "twice": rnd.random() < 0.3, "seq": rnd.choice(["", "", "append_after", "edit_as_dict"]),
                          "libdir": rnd.choice(["lib", None, "a/b", "my lib"]), "inclver": rnd.random() < 0.5,
                          "how": rnd.choice(["tag", "list", "doc", "html", "doc_html", "body", "list_html"]), "file": rnd.choice(["page.html", "sub dir/index.html"]) if False else "page.html",
                          "deps": deps})
